@@ -36,7 +36,8 @@
 (*             the zero that means "default") ;  retries : neg             *)
 (*   plugin : unknown | blank | otherkind  (otherkind = the non-check      *)
 (*            plugin inside a checks group / the check plugin in a seq)    *)
-(*   req : bad | wrongtype -- a request the plugin's ValidateReq rejects   *)
+(*   req : bad | wrongtype | nil -- a request the plugin's ValidateReq     *)
+(*         rejects (nil: no request at all, which this plugin refuses)     *)
 (*                                                                         *)
 (* A CASE is a base tree (three small valid plans) and a coherent set of   *)
 (* mutations (position, attribute, value); "coherent" = no two mutations   *)
@@ -104,7 +105,7 @@ MutsOf(k) ==
                        {M("entry", "nil"), M("attempts", "set"), M("retries", "neg"),
                         M("timeout", "0"), M("timeout", "1s"), M("timeout", "4999ms"), M("timeout", "5s"), M("timeout", "neg"),
                         M("plugin", "unknown"), M("plugin", "blank"), M("plugin", "otherkind"),
-                        M("req", "bad"), M("req", "wrongtype")}
+                        M("req", "bad"), M("req", "wrongtype"), M("req", "nil")}
 
 Mut(p, m)  == [pos |-> p, a |-> m[1], v |-> m[2]]
 \* every mutation applicable to the kind of every object of the base tree (a constant function of
